@@ -7,7 +7,10 @@
    pass does without being one: PriorityInheritance.check_and_boost /
    restore_priority / clear_all, an assignment to OperationContext.priority, an
    assignment to ResourceLock.allow_preemption, time passing, controller.advance,
-   ResourceLock.pop_next_waiter ([xop] in Model.v) - of ANY length
+   ResourceLock.pop_next_waiter, and with the remaining public calls that release or end
+   operations or register resources: controller.release_all_resources on an operation that
+   stays alive, CoordinationSystem.shutdown, CoordinationSystem.run_maintenance, the
+   registration of a further resource ([xop] in Model.v) - of ANY length
    over any number of operations and resources ([res] = registered resources with
    their initial allow_preemption flag, [w] = the watchdog configuration: the three
    time-outs and the victim strategy).  [fst (xrun current w (xinit res) hs)] is the pair (controller
@@ -129,10 +132,11 @@ Theorem c15_obtained_not_waiting :
 Proof. exact x_obtained_not_waiting_proof. Qed.
 Print Assumptions c15_obtained_not_waiting.
 
-(* a call that is not a start, acquisition, release, completion, abort, kill or watchdog run
+(* a call that is not a start, acquisition, release (also release_all_resources), completion,
+   abort, kill, shutdown, watchdog or maintenance run
    (priority inheritance, its undoing, a priority or allow_preemption assignment, time passing,
-   controller.advance, pop_next_waiter) changes neither the recorded nor the reference relation
-   nor the verdict of check_deadlock - in ANY state *)
+   controller.advance, pop_next_waiter, the registration of a further resource) changes neither
+   the recorded nor the reference relation nor the verdict of check_deadlock - in ANY state *)
 Theorem c15_priority_calls_keep_relation :
   forall fl w xs a,
     prio_call a ->
@@ -161,3 +165,47 @@ Theorem c15_basic_histories_embed :
   forall fl w hs gs bs, xrun fl w (gs, bs) (map XHop hs) = (grun fl w gs hs, bs).
 Proof. exact xrun_hops_proof. Qed.
 Print Assumptions c15_basic_histories_embed.
+
+(* ---- the other public calls that release or end operations ---- *)
+
+(* controller.release_all_resources(ctx) called on an operation o that STAYS ALIVE (the bulk
+   release behind complete / abort is public API and a release): o is still active, owns
+   nothing, NOBODY is recorded as waiting on o any more, the others own exactly what they
+   owned and every recorded wait on somebody else - also o's own waits - is exactly as before.
+   (That the recorded edges are again the reference relation is c15_edges_exact: the call is
+   part of the histories.) *)
+Theorem c15_release_all_of_live_operation :
+  forall res w hs o,
+    let xs := xrun current w (xinit res) hs in
+    In o (active (fst (fst xs))) ->
+    let xs' := fst (xstep current w xs (XReleaseAll o)) in
+    snd (xstep current w xs (XReleaseAll o)) = [0] /\
+    active (fst (fst xs')) = active (fst (fst xs)) /\
+    (forall r, owner (fst (fst xs')) r <> Some o) /\
+    (forall r b, b <> o -> (owner (fst (fst xs')) r = Some b <-> owner (fst (fst xs)) r = Some b)) /\
+    (forall wt r, ~ In (wt, o, r) (rec_edges (fst (fst xs')))) /\
+    (forall wt b r, b <> o ->
+       (In (wt, b, r) (rec_edges (fst (fst xs'))) <-> In (wt, b, r) (rec_edges (fst (fst xs))))) /\
+    snd xs' = snd xs.
+Proof. exact x_release_all_live_proof. Qed.
+Print Assumptions c15_release_all_of_live_operation.
+
+(* CoordinationSystem.shutdown() in any reachable state: no active operation, no owner, no
+   recorded and no reference wait, no boost and no reported deadlock are left *)
+Theorem c15_shutdown_clears_everything :
+  forall res w hs,
+    let xs' := fst (xstep current w (xrun current w (xinit res) hs) XShutdown) in
+    active (fst (fst xs')) = [] /\ (forall r, owner (fst (fst xs')) r = None) /\
+    rec_edges (fst (fst xs')) = [] /\ ref_edges (fst xs') = [] /\ snd (fst xs') = [] /\ snd xs' = [] /\
+    detect_cycle (edges (fst (fst xs'))) = None.
+Proof. exact x_shutdown_clears_proof. Qed.
+Print Assumptions c15_shutdown_clears_everything.
+
+(* CoordinationSystem.run_maintenance() is check_and_boost followed by watchdog.execute, in ANY
+   state: c15_victim_minimal_and_released speaks about its watchdog pass too (the state after
+   the boost is reachable, the keys are the inherited priorities) *)
+Theorem c15_maintenance_is_boost_then_watchdog :
+  forall fl w xs,
+    fst (xstep fl w xs XMaintain) = fst (xstep fl w (fst (xstep fl w xs XBoost)) (XHop HWatchdog)).
+Proof. exact maintain_is_boost_then_watchdog_proof. Qed.
+Print Assumptions c15_maintenance_is_boost_then_watchdog.
